@@ -377,7 +377,7 @@ def mon_c02(tr: Trace) -> list[Violation]:
             if tgt is not None and tgt != name:
                 continue
             for w in c.before.workers[name].collected_waiters:
-                if w.resolved_event is None and type(e) is w.waiting_for_event and all(getattr(e, k, None) == v for k, v in w.requirements.items()):
+                if w.resolved_event is None and not w.timed_out and type(e) is w.waiting_for_event and all(getattr(e, k, None) == v for k, v in w.requirements.items()):
                     woken.add(name)
         resolved_now = set()
         for name, ws in c.after.workers.items():
@@ -768,3 +768,69 @@ def mon_c09(tr: Trace) -> list[Violation]:
                 else:
                     seen[u] = (got, stale)
     return out
+
+
+# ------------------------------------------------------------------ C10
+
+
+def mon_c10(tr: Trace) -> list[Violation]:
+    """wait_for_event on real runs: delivered event matches, one completion / one TimeoutError per wait,
+    waiter_event once per waiter creation, nothing for resolved waiters."""
+    out: list[Violation] = []
+    case = _replay(tr)
+    per_wait: dict[tuple, list] = {}
+    for rec in tr.steps:
+        kind, step, uid, rn, _vt, info = rec
+        if kind == "waited":
+            per_wait.setdefault((step, uid, rn, info["wid"]), []).append(("got", info))
+            if info["got_ty"] != info["want_ty"] or (info["want_k"] is not None and info["got_k"] != info["want_k"]):
+                sig = "C10/resumed_requirement_not_enforced" if tr.spec.get("_resumed") and info["got_ty"] == info["want_ty"] \
+                    else "C10/delivered_event_mismatch"
+                out.append(Violation(sig, f"step {step} waited for type {info['want_ty']} k={info['want_k']} and received type {info['got_ty']} k={info['got_k']}", case))
+        elif kind == "wait_timeout":
+            per_wait.setdefault((step, uid, rn, info["wid"]), []).append(("timeout", info))
+    for key, lst in per_wait.items():
+        if len(lst) > 1:
+            kinds = [k for k, _ in lst]
+            out.append(Violation("C10/resumed_more_than_once", f"wait {key} of one invocation finished {len(lst)} times: {kinds}", case))
+    # reducer-level facts on the real ticks: waiter_event and timers only on creation; resolved waiters are left alone
+    for c in _runner_calls(tr):
+        if c.kind != "reduce" or c.after is None:
+            continue
+        if isinstance(c.tick, T.TickStepResult):
+            before = {w.waiter_id for w in c.before.workers[c.tick.step_name].collected_waiters}
+            for r in c.tick.result:
+                if isinstance(r, R.AddWaiter):
+                    pubs = [k for k in c.cmds if isinstance(k, C.CommandPublishEvent) and r.waiter_event is not None and k.event is r.waiter_event]
+                    tmos = [k for k in c.cmds if isinstance(k, C.CommandScheduleWaiterTimeout) and k.waiter_id == r.waiter_id]
+                    want = 0 if r.waiter_id in before else 1
+                    if r.waiter_event is not None and len(pubs) != want:
+                        out.append(Violation("C10/waiter_event_not_once", f"waiter {r.waiter_id!r} ({'existing' if want == 0 else 'new'}): waiter_event published {len(pubs)} times", case))
+                    if r.timeout is not None and len(tmos) != want:
+                        out.append(Violation("C10/timeout_not_scheduled_once", f"waiter {r.waiter_id!r} ({'existing' if want == 0 else 'new'}): {len(tmos)} timeout(s) scheduled", case))
+                    before.add(r.waiter_id)
+        if isinstance(c.tick, (T.TickAddEvent, T.TickWaiterTimeout)):
+            for nm, ws in c.before.workers.items():
+                for w in ws.collected_waiters:
+                    if w.resolved_event is not None:
+                        now_w = next((x for x in c.after.workers[nm].collected_waiters if x.waiter_id == w.waiter_id), None)
+                        if now_w is None or now_w.resolved_event is not w.resolved_event or now_w.timed_out != w.timed_out:
+                            out.append(Violation("C10/resolved_waiter_touched", f"step {nm}: resolved waiter {w.waiter_id!r} changed by {type(c.tick).__name__}", case))
+                        replays = [k for k in c.cmds if isinstance(k, C.CommandRunWorker) and k.step_name == nm and k.event is w.event]
+                        newly = [x for x in ws.collected_waiters if x.resolved_event is None and x.event is w.event]
+                        if replays and not newly and not (isinstance(c.tick, T.TickAddEvent) and c.tick.event is w.event):
+                            out.append(Violation("C10/resolved_waiter_replayed_again", f"step {nm}: waiter {w.waiter_id!r} already has its event but its step is replayed by {type(c.tick).__name__}", case))
+        for nm, ws in c.after.workers.items():
+            for w in ws.collected_waiters:
+                e = w.resolved_event
+                if e is not None and (type(e) is not w.waiting_for_event or any(getattr(e, k, None) != v for k, v in w.requirements.items())):
+                    out.append(Violation("C10/waiter_resolved_with_non_matching_event", f"step {nm}: waiter {w.waiter_id!r} for {w.waiting_for_event.__name__} {w.requirements} holds {type(e).__name__} k={getattr(e, 'k', None)}", case))
+    return out
+
+
+def live_waiters_at(tr: Trace, at_call: int) -> list:
+    """(step, waiter) pairs of the live state when a snapshot was taken"""
+    rc = [c for c in tr.calls[:at_call] if c.after is not None]
+    if not rc:
+        return []
+    return [(nm, w) for nm, ws in rc[-1].after.workers.items() for w in ws.collected_waiters]
